@@ -111,6 +111,7 @@ func (b *backendRun) badgerObsLines() []string {
 	}
 	sort.SliceStable(tail, func(i, j int) bool { return false })
 	var out []string
+	out = append(out, b.nodeProbeLines(tail)...)
 	for i := len(tail) - 1; i >= 0; i-- {
 		f := strings.Fields(tail[i])
 		switch f[0] {
@@ -123,6 +124,63 @@ func (b *backendRun) badgerObsLines() []string {
 			}
 			out = append(out, fmt.Sprintf("readable %s %s %s %s", f[1], f[2], f[3], ok))
 		}
+	}
+	return out
+}
+
+// nodeProbeLines compares the node store itself: for every version that reports a non-empty root,
+// every node hash ever seen is fetched with GetNode at that version's timestamp (the reported
+// root only serves as the carrier GetNode insists on). The bookkeeping model must agree on the
+// exact set of visible nodes per version, so a backend that deletes (or keeps) a node the model's
+// rules do not is reported at once, whether or not any later root happens to need that node.
+func (b *backendRun) nodeProbeLines(tail []string) []string {
+	var obs string
+	for _, l := range tail {
+		if strings.HasPrefix(l, "obs ") {
+			obs = l
+		}
+	}
+	f := strings.Fields(obs)
+	if len(f) < 4 || f[3] == "-" {
+		return nil
+	}
+	carrier := map[int][2]int{} // version -> (type, hash id) of a listed non-empty root
+	for _, r := range strings.Split(f[3], ",") {
+		var v, t, id int
+		if n, _ := fmt.Sscanf(r, "%d:%d:%d", &v, &t, &id); n == 3 && id != 0 {
+			if _, ok := carrier[v]; !ok {
+				carrier[v] = [2]int{t, id}
+			}
+		}
+	}
+	var vs []int
+	for v := range carrier {
+		vs = append(vs, v)
+	}
+	sort.Ints(vs)
+	var out []string
+	for _, v := range vs {
+		c := carrier[v]
+		root := node.Root{Namespace: ns, Version: uint64(v), Type: node.RootType(c[0] + 1), Hash: b.ht.rev[c[1]-1]}
+		var vis []string
+		for i, h := range b.ht.rev {
+			n, err := func() (n node.Node, err error) {
+				defer func() {
+					if p := recover(); p != nil {
+						err = fmt.Errorf("panic")
+					}
+				}()
+				return b.db.GetNode(root, &node.Pointer{Clean: true, Hash: h})
+			}()
+			if err == nil && n != nil {
+				vis = append(vis, fmt.Sprint(i+1))
+			}
+		}
+		vl := "-"
+		if len(vis) > 0 {
+			vl = strings.Join(vis, ",")
+		}
+		out = append(out, fmt.Sprintf("nodes %d %d %d %d %s", v, c[0], c[1], len(b.ht.rev), vl))
 	}
 	return out
 }
